@@ -41,6 +41,7 @@ class Roles:
         self.helpers = set()
         self._find_legs()
         self.cascade = self._find_cascade()
+        self._refine_by_call_structure()
         self.dayloop = self._find_dayloop()
         self.prepass = self._find_prepass()
         self.canon = self._find_canon()
@@ -101,6 +102,57 @@ class Roles:
             for c in pick:
                 if c[0].id == b.id and c[4].startswith("via:"):
                     self.helpers.add(c[4][4:])
+
+    def _rules_in_region(self, L):
+        """{rule: [(block of L, Match term in L's terms, site)]} for Match values built in L or in the helpers it delegates to"""
+        rg = Region(self, L, depth=2, stop=(), arg_depth=2)
+        out = {}
+        for ex in rg.expansions:
+            hb, tb, conv = ex["body"], ex["tb"], ex["conv"]
+            for i, si, s in hb.assigns():
+                rv = s["rv"]
+                if rv["k"] == "agg" and rv["adt"] == MATCH:
+                    term = conv(tb.rvalue(rv))
+                    rr = rule_of(term)
+                    if rr in RULES:
+                        out.setdefault(rr, []).append((ex["root_bb"] if ex["root_bb"] is not None else i, term, hb.loc(s["sp"])))
+        return out, rg
+
+    def _refine_by_call_structure(self):
+        """Leg producers are the functions the cascade CALLS: a body C with three distinct direct callees, each producing (itself
+        or through its helpers) the legs of exactly one rule. When this agrees with the value-based discovery nothing
+        changes; when a leg's work has been pushed down into a helper (`look_ahead.match_against_buy(..)` called from the
+        look-ahead loop) the producer is the called function with the loop, and its Match sites are seen through the region."""
+        vis = {}
+        def vis_of(bid):
+            if bid not in vis:
+                vis[bid] = self._rules_in_region(self.F.bodies[bid])
+            return vis[bid]
+        ids = {b.id for b in self.bodies if b.kind in ("fn", "method")}
+        best = None
+        for c in self.bodies:
+            if c.kind not in ("fn", "method"):
+                continue
+            callees = [t["callee"] for _, t in c.calls() if t["callee"] in ids and t["callee"] != c.id]
+            per_rule = {}
+            for cal in dict.fromkeys(callees):
+                rs, _ = vis_of(cal)
+                if len(rs) == 1:
+                    per_rule.setdefault(next(iter(rs)), []).append(cal)
+            if all(len(per_rule.get(r, [])) == 1 for r in RULES):
+                if best is None or len(c.blocks) < len(best[0].blocks):
+                    best = (c, {r: per_rule[r][0] for r in RULES})
+        if best is None:
+            return
+        c, legs = best
+        self.cascade = c
+        for r, lid in legs.items():
+            if r in self.legs and self.legs[r][0].id == lid:
+                continue
+            rs, rg = vis_of(lid)
+            L = self.F.bodies[lid]
+            self.legs[r] = (L, rs[r])
+            self.helpers |= {bid for bid in rg.bodies if bid != lid and self.F.bodies[bid].kind != "closure"}
 
     def leg(self, r):
         if r not in self.legs:
@@ -180,8 +232,11 @@ class Roles:
                 ids.add(v.id)
         return ids
 
-    def region(self, root, depth=2, extra_stop=()):
-        return Region(self, root, depth, stop=(self.role_ids() - {root.id}) | set(extra_stop))
+    def region(self, root, depth=2, extra_stop=(), arg_depth=0):
+        stop = self.role_ids() - {root.id}
+        if root.id in {v[0].id for v in self.legs.values()}:
+            stop -= set(self.helpers)       # a leg producer's region includes its own helpers
+        return Region(self, root, depth, stop=stop | set(extra_stop), arg_depth=arg_depth)
 
     def require(self, name):
         v = getattr(self, name)
@@ -251,8 +306,9 @@ class Region:
     the helper's context into the root's context (parameter / captured-variable substitution). Extracting a helper,
     or turning a loop into `iter().for_each(..)`, therefore does not hide a call from a rule."""
 
-    def __init__(self, R, root, depth=2, stop=(), ledger=False):
+    def __init__(self, R, root, depth=2, stop=(), ledger=False, arg_depth=0):
         self.R = R
+        self.arg_depth = arg_depth
         self.ledger = ledger or root.id.startswith("cgt_core::matcher::acquisition_ledger::")
         self.F = R.F
         self.root = root
@@ -277,7 +333,7 @@ class Region:
 
     def _expand(self, body, root_bb, conv, d, path, via=None):
         from mir import subst
-        tb = self.R.terms(body, 0)
+        tb = self.R.terms(body, self.arg_depth)
         self.convs[body.id] = conv
         ex = dict(body=body, conv=conv, root_bb=root_bb, path=path, tb=tb, via=via)
         self.expansions.append(ex)
@@ -361,8 +417,143 @@ def times_ratio(term, q, r):
     return term == mk_mul([q, r])
 
 
+_PIPE_CACHE = {}
+
+
+def iterator_chain(F, chain, depth=0):
+    """An iterator-adaptor chain read stage by stage: -> (source term, element term reaching the consumer, [(condition on the
+    source element, kind, closure id)] for filter / take_while stages, skip start, reversed?) or None when a stage is not
+    modelled. The source element is ('elem', source), its enumerate index ('eidx', source)."""
+    from mir import closure_summary, summary, subst
+    stages = []
+    x = chain
+    while isinstance(x, tuple) and x and x[0] == "call" and x[2]:
+        stages.append((parse_callee(x[1])[2], x))
+        x = x[2][0]
+    source = x
+    SRC_E, SRC_I = ("elem", source), ("eidx", source)
+    el = SRC_E
+    pending = []
+    start = None
+    rev = False
+    for m, call in reversed(stages):
+        args = call[2]
+        if m in ("iter", "into_iter", "by_ref", "copied", "cloned", "iter_mut", "peekable", "fuse"):
+            continue
+        if m == "enumerate":
+            el = ("tuple", (SRC_I, el))
+        elif m == "skip" and len(args) == 2:
+            start = args[1]
+        elif m == "rev":
+            rev = True
+        elif m in ("filter", "take_while", "skip_while", "map", "inspect") and len(args) == 2:
+            clo = args[1]
+            if isinstance(clo, tuple) and clo and clo[0] == "closure" and clo[1] in F.bodies:
+                summ = closure_summary(F, clo[1], depth)
+                if summ is None:
+                    return None
+                res = subst(summ, [("tuple", tuple(clo[2])), el])
+            elif isinstance(clo, tuple) and clo and clo[0] == "fn" and clo[1] in F.bodies:
+                summ = summary(F, clo[1], depth)
+                if summ is None:
+                    return None
+                res = subst(summ, [el])
+            else:
+                return None
+            if m in ("filter", "take_while"):
+                pending.append((res, m, clo[1]))
+            elif m == "map":
+                el = res
+        else:
+            return None     # an adaptor this model does not know: no claim about the conditions
+    return source, el, pending, start, rev
+
+
+class Pipeline:
+    """The iterator chain feeding a `for` loop, read as guards. `for x in src.iter().enumerate().skip(k).filter(p).map(f)
+    .take_while(q)` lets the body see an element only when p and q hold, so — for every rule that asks under which conditions
+    a block runs — those closures are branch conditions just like `if !p { continue }` / `if !q { break }` in the loop body.
+    Conditions are expressed in the vocabulary of the loop body: `elem` is the value the loop variable is bound to
+    (`some(next(iter))`), its tuple components are `elem.0`, `elem.1`, …"""
+
+    def __init__(self, F, b, tb, header, blks):
+        from mir import closure_summary, summary, subst
+        self.ok = False
+        self.guards = []        # (cond term in loop-body vocabulary, kind, closure id)
+        self.start = None
+        self.reversed = False
+        self.source = None
+        self.elem = None
+        nx = [(i, t) for i, t in b.calls() if i in blks and parse_callee(t["callee"])[2] == "next" and t.get("target") is not None
+              and b.term(t["target"])["k"] == "switch"]
+        if len(nx) != 1:
+            return
+        i, t = nx[0]
+        recv = tb.operand(t["args"][0])
+        self.elem = ("some", tb.call_term(t))
+        chain = recv[2] if isinstance(recv, tuple) and recv and recv[0] == "var" and len(recv) > 2 else recv
+        res = iterator_chain(F, chain)
+        if res is None:
+            return
+        self.source, el, pending, self.start, self.reversed = res
+        SRC_E, SRC_I = ("elem", self.source), ("eidx", self.source)
+        # vocabulary of the loop body
+        B = self.elem
+        if isinstance(el, tuple) and el and el[0] == "tuple":
+            comps = list(el[1])
+        else:
+            comps = None
+        def to_B(term):
+            def go(y):
+                if y == SRC_E or y == SRC_I:
+                    if comps is None:
+                        return B if y == SRC_E else y
+                    for k, cpt in enumerate(comps):
+                        if cpt == y:
+                            return ("field", B, str(k))
+                    return y
+                if isinstance(y, tuple):
+                    return tuple(go(z) if isinstance(z, tuple) else z for z in y)
+                return y
+            return go(term)
+        self.components = {str(k): to_B(cpt) for k, cpt in enumerate(comps)} if comps else {}
+        self.guards = [(to_B(cond), kind, cid) for cond, kind, cid in pending]
+        self.start_is_after = None
+        self.ok = True
+
+    def normalise(self, term):
+        """compound components of the element (`elem.2` produced by a `.map(..)`) are replaced by what they stand for"""
+        B = self.elem
+        def go(y):
+            if isinstance(y, tuple) and len(y) == 3 and y[0] == "field" and y[1] == B and y[2] in self.components:
+                c = self.components[y[2]]
+                if c != y:
+                    return c
+            if isinstance(y, tuple):
+                return tuple(go(z) if isinstance(z, tuple) else z for z in y)
+            return y
+        return go(term)
+
+
+def loop_pipeline(b, tb, bb):
+    """Pipeline of the innermost iterator-driven loop of b containing block bb (None when bb is in no such loop)"""
+    inner = [(h, bl) for h, bl in b.loops() if bb in bl]
+    if not inner:
+        return None
+    h, bl = min(inner, key=lambda x: len(x[1]))
+    key = (id(tb.facts), b.id, h)
+    if key not in _PIPE_CACHE:
+        try:
+            p = Pipeline(tb.facts, b, Terms(tb.facts, b, inline_depth=0), h, bl)
+        except Exception:
+            p = None
+        _PIPE_CACHE[key] = p if p is not None and p.ok else None
+    return _PIPE_CACHE[key]
+
+
 def guards_of(b, tb, bb):
-    """(cond term, value-on-this-path) for every switch edge that edge-dominates block bb"""
+    """(cond term, value-on-this-path, where) for every switch edge that edge-dominates block bb, plus the filtering closures
+    of the iterator chain feeding the loop around bb (see Pipeline): `where` is the switch block, or ('pipeline', kind)"""
     out = []
     for s in b.reachable():
         t = b.term(s)
@@ -375,6 +566,10 @@ def guards_of(b, tb, bb):
                 vals = [v for v, x in t["targets"] if x == tgt]
                 val = vals[0] if vals else "otherwise"
                 out.append((tb.operand(t["discr"]), val, s))
+    p = loop_pipeline(b, tb, bb)
+    if p is not None:
+        for cond, kind, cid in p.guards:
+            out.append((cond, "1", ("pipeline", kind)))
     return out
 
 
